@@ -378,6 +378,23 @@ def validate(ctx, trace):
                     "last_step": {k: sc[-1][k] for k in ("ev", "p", "wpg", "wpod", "wother")}, "podgroups_after": [g["name"] for g in sc[-1]["groups"] if g["ex"]]})
 
 
+def run_pool(fns, width):
+    """vlib.run_parallel with a bounded number of stages at a time: the first failure is re-raised after all have ended."""
+    import concurrent.futures
+    errs = []
+    with concurrent.futures.ThreadPoolExecutor(max_workers=width) as ex:
+        for f in [ex.submit(fn) for fn in fns]:
+            try:
+                f.result()
+            except BaseException as e:      # noqa: B902 - re-raised below
+                errs.append(e)
+    for e in errs:
+        if not isinstance(e, vlib.Infra):
+            raise e
+    if errs:
+        raise errs[0]
+
+
 def run(ctx):
     binary = vlib.go_build("grouper")
     cat = json.loads(vlib.run_harness(binary, ["-list"]).stdout)
@@ -388,7 +405,7 @@ def run(ctx):
     ctx.cov["hub_gvks_covered"] = cat["hub_keys"]
     tier = "quick" if ctx.quick else "thorough"
     t0 = time.time()
-    # TLC runs are independent of each other: three at a time (2 workers each in the quick tier)
+    # TLC runs are independent of each other: three at a time (2 workers each) in the quick tier, two (4 workers) in the thorough one
     exported = {}
 
     def export(shape, st, fo, ow):
@@ -396,9 +413,7 @@ def run(ctx):
 
     jobs = [(lambda a=(shape,) + b: model_check(ctx, *a)) for shape, b in SHAPES[tier].items()]
     jobs += [(lambda a=(shape,) + b: export(*a)) for shape, b in EXPORT[tier].items()]
-    width = 3 if ctx.quick else 2
-    for i in range(0, len(jobs), width):
-        vlib.run_parallel(jobs[i:i + width])
+    run_pool(jobs, 3 if ctx.quick else 2)
     t1 = time.time()
     sched_path = os.path.join(ctx.scratch, "schedules.ndjson")
     total_edges = 0
@@ -433,7 +448,7 @@ def run(ctx):
         "a merge patch with an empty body is not counted as a mutating call",
         "OwnerChange = a label / annotation added to (then changed on) the object the PodGroups inherit metadata from (top owner; CronJob: the Job; Knative: the Revision; Grove: the PodGang; skip-top-owner kinds: the skipped owner); not run for kinds where the pod itself is that object (bare Pod, Spark driver): an annotated orphan pod is skipped by the reconciler by design",
         "the foreign annotation is kai.scheduler/last-start-timestamp written on the PodGroup",
-        "OwnerSet = the kai.scheduler/preemptibility (non-preemptible | preemptible) or priorityClassName (build | inference) label of the same object set, changed or removed; the expected PodGroup afterwards is the catalogue's documented fresh grouping for that label state (catalogue.go ownerExpectations: plain install for a removed label, labelled install for the labelled value, the label's value where the labelled install shows the kind follows the label); the queue label is not edited: spec.queue and the queue label belong to other actors after creation (handler.go ignoreFields), they are foreign fields here",
+        "OwnerSet = the kai.scheduler/preemptibility (non-preemptible | preemptible) or priorityClassName (build | inference) label of the same object set, changed or removed; the expected PodGroup afterwards is the catalogue's documented fresh grouping for that label state (catalogue.go ownerExpectations: plain install for a removed label, labelled install for the labelled value, the label's value where the labelled install shows the kind follows the label; Grove labelled install: the PodGangSet / PodCliqueSet carries the same labels as the documented fallback, so a label removed from the PodGang uncovers the labelled value); the queue label is not edited: spec.queue and the queue label belong to other actors after creation (handler.go ignoreFields), they are foreign fields here",
         "ReconcileRaced = the foreign update is applied inside the fake client's Update interceptor when the reconciler updates that PodGroup (after its Get), then the Update is passed on to the fake store, whose resourceVersion check answers 409 Conflict; a reconcile that returns this conflict is not complete (the work queue retries it: a later Reconcile step of the schedule) and the error is expected; a raced step whose reconcile has nothing to write (kind ignores the edited label) is an ordinary reconcile",
     ]
     validate(ctx, trace)
